@@ -199,6 +199,19 @@ func propView(ct *Contract, prop string) *Contract {
 	}
 	n := *ct
 	n.Requires, n.Ensures, n.Extra = nil, nil, nil
+	n.Flags = map[string]string{}
+	for k, v := range ct.Flags {
+		sc := ct.FlagScope[k]
+		ok := len(sc) == 0
+		for _, p := range sc {
+			if p == prop {
+				ok = true
+			}
+		}
+		if ok {
+			n.Flags[k] = v
+		}
+	}
 	for _, r := range ct.Requires {
 		if clauseFor(r, prop) {
 			n.Requires = append(n.Requires, r)
